@@ -1683,6 +1683,60 @@ pub fn c15(thorough: bool, seed: u64) -> CheckOutput {
         |a, b| a.merge(b),
     );
     acc.merge(long);
+    // the rate as a front end delivers it: the action wrapper's mutation_rate input in every
+    // spelling of the two extremes (a workflow's `mutation_rate: 0` arrives as "0"); the file must be
+    // the library's output for rate 0.0 / 1.0, whose Draw/Mutated log is judged above
+    if std::env::var("PFV_CLI").is_ok() {
+        let spellings: [(&str, f64); 8] = [("0", 0.0), ("0.0", 0.0), ("0.", 0.0), (".0", 0.0), ("0.00", 0.0), ("1", 1.0), ("1.0", 1.0), ("1.", 1.0)];
+        let fe = par_run(
+            spellings.len() * 6,
+            Acc::new,
+            |i, acc| {
+                let (txt, rate) = spellings[i / 6];
+                let proto = (i % 6) as u8;
+                let s = 500 + i as u64;
+                let muts = vec![Mk::Boundary, Mk::Bitflip, Mk::Offbyone, Mk::Stringlen, Mk::Character];
+                let inputs: Vec<(&str, String)> = vec![
+                    ("INPUT_PROTOCOL", proto.to_string()),
+                    ("INPUT_SEED", s.to_string()),
+                    ("INPUT_MUTATION_RATE", txt.to_string()),
+                    ("INPUT_MUTATORS", muts.iter().map(|m| m.name()).collect::<Vec<_>>().join(",")),
+                ];
+                let cfg = Config {
+                    mutators: muts.clone(),
+                    rate,
+                    ..Config::default_for(proto, Entropy::Seed(s))
+                };
+                let want = match run_case(&cfg, Some(tr)) {
+                    CaseResult { outcome: Outcome::Ok(b), events } => {
+                        check_c15(&cfg, &CaseResult { outcome: Outcome::Ok(b.clone()), events }, acc);
+                        b
+                    }
+                    _ => return,
+                };
+                match action_batch(&inputs, 1) {
+                    Err(m) => acc.inconclusive.push(format!("action wrapper run failed in the C15 front-end layer: {}", m)),
+                    Ok(files) => {
+                        acc.count("wrapper_rate_spellings_compared", 1);
+                        if files.first() != Some(&want) {
+                            let msg = format!(
+                                "action wrapper with mutation_rate=\"{}\" (protocol {}, seed {}, five mutators) did not write the library's output for rate {}: the requested rate did not reach the generator",
+                                txt, proto, s, rate
+                            );
+                            acc.violate(Violation {
+                                property: "C15".into(),
+                                signature: format!("C15:wrapper_rate:{}", if rate == 0.0 { "rate0" } else { "rate1" }),
+                                message: msg.clone(),
+                                replay: json!({"kind": "c15-wrapper", "property": "C15", "mutation_rate": txt, "protocol": proto, "seed": s, "message": msg}),
+                            });
+                        }
+                    }
+                }
+            },
+            |a, b| a.merge(b),
+        );
+        acc.merge(fe);
+    }
     // direct mutator calls (W10)
     crate::mon_api::c15_direct(thorough, seed, &mut acc);
     for k in ["cases_rate0", "cases_rate1"] {
